@@ -242,6 +242,10 @@ def make_leaf(u, rng, run):
     for _ in range(n):
         d = d0 if share else u.dofs[int(rng.integers(len(u.dofs)))]
         syms = u.SYMS[u.dof_kind[d]]
+        if u.dof_kind[d] == "spin" and "sho" in u.kinds:
+            # the bare alias "+" next to "b^\dagger" and a following "b..." is read by Op.__init__ as the single
+            # symbol "b^\dagger + b" (string replace) and rejected with ValueError: not an accepted expression
+            syms = [x for x in syms if x != "+"]
         t = "I" if rng.random() < 0.25 else str(rng.choice(syms))
         toks.append(t)
         dofs.append(d)
